@@ -304,32 +304,7 @@ func configValidationBodies(t *tr, p *packages.Package) string {
 		b.WriteString(configBoolFunc(t, p, v[0], v[1]))
 	}
 	for _, h := range [][2]string{{"getTimeForValidation", "timeHelper"}, {"getSizeForValidation", "sizeHelper"}} {
-		fd := findFunc(p, h[0])
-		if fd == nil {
-			t.errs = append(t.errs, "core/config: func "+h[0]+" not found")
-			continue
-		}
-		restore := configCanonLocals(p, fd)
-		var res []string
-		if fd.Type.Results != nil {
-			for _, f := range fd.Type.Results.List {
-				for _, n := range f.Names {
-					res = append(res, n.Name+" "+cfSrc(p, f.Type))
-				}
-			}
-		}
-		var prm []string
-		for _, f := range fd.Type.Params.List {
-			for _, n := range f.Names {
-				prm = append(prm, n.Name+" "+cfSrc(p, f.Type))
-			}
-		}
-		var st []string
-		configStmts(p, fd.Body.List, &st)
-		restore()
-		b.WriteString(fmt.Sprintf("/-- `%s`: its parameters (locals are numbered x0, x1, … in order of first appearance) -/\ndef %sParams : List String := %s\n", h[0], h[1], cfQ(prm)))
-		b.WriteString(fmt.Sprintf("/-- `%s`: its named results, in order -/\ndef %sResults : List String := %s\n", h[0], h[1], cfQ(res)))
-		b.WriteString(fmt.Sprintf("/-- `%s`, statement by statement -/\ndef %sStmts : List String := %s\n", h[0], h[1], cfQ(st)))
+		b.WriteString(configHelperFunc(t, p, h[0], h[1]))
 	}
 	// StringToAbstractValidation: a non-string field fails
 	if fd := findFunc(p, "StringToAbstractValidation"); fd != nil {
